@@ -59,6 +59,8 @@ type c01scenario struct {
 	LabeledNs []string // namespaces carrying the label initially
 	LateNs    string   // namespace created (labelled) by the environment as first step of the history
 	SlowConsumer bool  // the event-channel consumer is a thread of its own (can lag, lets senders block)
+	QuickBound   int   // deviation bound in the quick tier when > 0 (heavier thread sets); the thorough tier uses the full bound
+	ThoroughOnly bool
 	EnvPrefill   int   // with EnvThread: this many leading mutations are applied before the threads start
 	EnvThread    bool  // the environment mutates concurrently (needed when LISTs happen after start); otherwise
 	// all mutations are applied, and their callbacks queued in the informers' FIFOs, before the
@@ -87,6 +89,7 @@ type c01obs struct {
 	Events       []c01event
 	Log          []c01mut
 	Quiet        bool
+	K1, K2       int
 	LateRegAt    map[string]int // namespace -> number of environment mutations made before the informer created at run time for it registered
 	End          string
 	Panics       []string
@@ -254,22 +257,56 @@ func c01body(sc c01scenario, obs *c01obs) func(x *vrt.Exec) {
 			}
 			envDone = true
 		}
+		// Environment timing is scripted, not pre-empted: how many informer deliveries are over
+		// before the Synchronization view is taken (k1) and before the unlock (k2), and in which
+		// phase another reader acts, are enumerated with vrt.Choose (cost 0). Overlap of a
+		// delivery with Snapshot / EnableKubeEventCb inside a phase needs pre-emptions (bounded).
+		scripted := !sc.EnvThread
+		total := hub.Queued()
+		phase := 0 // 1: Synchronization view taken, 2: unlocked
+		k1, k2 := 0, 0
+		if scripted {
+			hub.Gated = true
+			k1 = vrt.Choose(total+1, "deliveries-before-sync-view")
+			k2 = k1 + vrt.Choose(total-k1+1, "deliveries-during-hook-run")
+			hub.Allowed = k1
+		}
+		obs.K1, obs.K2 = k1, k2
 		// the Synchronization run of the binding
 		vrt.GoNamed("sync", func() {
+			if scripted {
+				vrt.Wait("sync-start", func() bool { return hub.Finished >= k1 })
+				hub.Allowed = k2
+			}
 			snap := mon.Snapshot()
 			obs.Snapshot = map[string]int{}
 			for _, o := range snap {
 				id, ver := c01verOf(o)
 				obs.Snapshot[id] = ver
 			}
-			vrt.Yield("hook-run")
+			phase = 1
+			if scripted {
+				vrt.Wait("hook-run", func() bool { return hub.Finished >= k2 })
+				hub.Allowed = total + 1000
+			} else {
+				vrt.Yield("hook-run")
+			}
 			obs.EnableSeq = next()
 			mon.EnableKubeEventCb()
+			phase = 2
 			syncDone = true
 		})
 		for i := 0; i < sc.Readers; i++ {
+			when := 0
+			if scripted {
+				when = vrt.Choose(3, "reader-phase")
+			}
 			vrt.GoNamed("reader", func() {
-				vrt.Yield("reader")
+				if scripted {
+					vrt.Wait("reader-start", func() bool { return phase >= when })
+				} else {
+					vrt.Yield("reader")
+				}
 				_ = mon.Snapshot()
 				readersDone++
 			})
@@ -544,7 +581,12 @@ func c01scenarios() []c01scenario {
 	names := []string{"mod-mod", "mod-create", "del-create", "mod-del", "b-life", "out-in"}
 	for _, hn := range names {
 		for _, readers := range []int{0, 1} {
-			out = append(out, c01scenario{Name: fmt.Sprintf("%s/nofilter/readers=%d", hn, readers), Initial: []c01mut{a0}, History: hist[hn], KeepFull: true, Readers: readers})
+			sc := c01scenario{Name: fmt.Sprintf("%s/nofilter/readers=%d", hn, readers), Initial: []c01mut{a0}, History: hist[hn], KeepFull: true, Readers: readers}
+			if readers > 0 {
+				sc.QuickBound = 1
+				sc.ThoroughOnly = hn != "mod-mod" && hn != "mod-del"
+			}
+			out = append(out, sc)
 		}
 	}
 	for _, hn := range []string{"mod-mod", "out-in", "mod-del"} {
@@ -553,8 +595,8 @@ func c01scenarios() []c01scenario {
 		out = append(out, c01scenario{Name: hn + "/only-modified/readers=0", Initial: []c01mut{a0}, History: hist[hn], KeepFull: true, Types: []kemtypes.WatchEventType{kemtypes.WatchEventModified}})
 	}
 	// namespace.labelSelector bindings: a labelled namespace exists, another appears after start
-	out = append(out, c01scenario{Name: "ns-label/static/readers=0", NsLabel: true, LabeledNs: []string{"n1"}, Initial: []c01mut{a0}, History: hist["mod-mod"], KeepFull: true})
-	out = append(out, c01scenario{Name: "mod-mod/nofilter/slow-consumer", Initial: []c01mut{a0}, History: hist["mod-mod"], KeepFull: true, SlowConsumer: true})
+	out = append(out, c01scenario{Name: "ns-label/static/readers=0", NsLabel: true, LabeledNs: []string{"n1"}, Initial: []c01mut{a0}, History: hist["mod-mod"], KeepFull: true, QuickBound: 1})
+	out = append(out, c01scenario{Name: "mod-mod/nofilter/slow-consumer", Initial: []c01mut{a0}, History: hist["mod-mod"], KeepFull: true, SlowConsumer: true, QuickBound: 1})
 	out = append(out, c01scenario{Name: "mod-del/nofilter/env-thread", Initial: []c01mut{a0}, History: hist["mod-del"], KeepFull: true, EnvThread: true})
 	out = append(out, c01scenario{Name: "ns-label/late-ns-prefilled", NsLabel: true, LateNs: "n3", KeepFull: true,
 		History: []c01mut{{"nscreate", "n3", "", 0, ""}, {"create", "n3", "c", 1, "x"}, {"modify", "n3", "c", 2, "y"}}})
@@ -566,8 +608,14 @@ func c01scenarios() []c01scenario {
 // c01filter: pre-emptive switches are explored at scheduling points inside the informer /
 // monitor code and at the harness-level yields; blocking switches happen everywhere.
 func c01filter(site string) bool {
-	return strings.HasPrefix(site, "resource_informer.go:") || strings.HasPrefix(site, "monitor.go:") ||
+	return strings.HasPrefix(site, "resource_informer.go:") || strings.HasPrefix(site, "monitor.go:") || strings.HasPrefix(site, "kube_events_manager.go:") ||
 		strings.HasPrefix(site, "namespace_informer.go:") || strings.HasPrefix(site, "zz_verif_")
+}
+
+// c01free: environment timing costs no deviation - how far an informer lags, how long the
+// hook runs, when another reader or the environment acts.
+func c01free(kind, site string) bool {
+	return kind == "informer-deliver" || kind == "ns-informer-deliver" || strings.HasPrefix(kind, "yield:")
 }
 
 func TestVerifC01L1(t *testing.T) {
@@ -584,7 +632,17 @@ func TestVerifC01L1(t *testing.T) {
 			continue
 		}
 		sc := sc
-		ex := &vrt.Explorer{Opts: vrt.Options{Bound: bound, MaxSteps: 5000, RecordTrace: false, Filter: c01filter}, Shard: shard, Shards: shards}
+		scBound := bound
+		if !vres.Thorough() {
+			if sc.ThoroughOnly {
+				continue
+			}
+			if sc.QuickBound > 0 {
+				scBound = sc.QuickBound
+			}
+		}
+		r.Count(fmt.Sprintf("bound_%d:%s", scBound, sc.Name), 1)
+		ex := &vrt.Explorer{Opts: vrt.Options{Bound: scBound, MaxSteps: 5000, RecordTrace: false, Filter: c01filter}, Shard: shard, Shards: shards}
 		outcomes := map[string]bool{}
 		var obs *c01obs
 		body := func(x *vrt.Exec) {
@@ -609,7 +667,7 @@ func TestVerifC01L1(t *testing.T) {
 			r.Outcome(oc, x.Devs() > 0)
 			r.State(oc)
 			if x.Devs() > 0 {
-				r.Sample(map[string]any{"scenario": sc.Name, "choices": fmt.Sprint(x.Choices), "synchronization_view": obs.Snapshot, "events": fmt.Sprint(obs.Events)})
+				r.Sample(map[string]any{"scenario": sc.Name, "choices": fmt.Sprint(x.Choices), "deliveries_before_view": obs.K1, "deliveries_before_unlock": obs.K2, "synchronization_view": obs.Snapshot, "events": fmt.Sprint(obs.Events)})
 			}
 		}
 		if r.Replaying() {
